@@ -32,9 +32,13 @@ inductive Op where
   | window (n : Nat)
 deriving DecidableEq, Repr
 
-/-- the source looks a detach up among the held transfers of its link, and queues it if there is one -/
+/-- the source looks a detach up among *all* the held transfers (`iter().any`) for one of its link, and
+    queues it if there is one; the link's handle is given back only where the detach is written -/
 def detachWaits : Bool :=
-  decide (on_outgoing_detach_order.idx_transfer___handle_____detach___handle < on_outgoing_detach_order.idx_if_held ∧
+  decide (on_outgoing_detach_order.idx_remote_incoming_window_exhausted_buffer___iter_______any <
+            on_outgoing_detach_order.idx_transfer___handle_____detach___handle ∧
+          on_outgoing_detach_inner_order.idx_deallocate_link < on_outgoing_detach_inner_order.idx_SessionFrameBody_____Detach ∧
+          on_outgoing_detach_order.idx_transfer___handle_____detach___handle < on_outgoing_detach_order.idx_if_held ∧
           on_outgoing_detach_order.idx_if_held < on_outgoing_detach_order.idx_push_back ∧
           on_outgoing_detach_order.idx_push_back < on_outgoing_detach_order.idx_on_outgoing_detach_inner)
 
